@@ -83,7 +83,7 @@ def main():
                 m = meta_all.get(v, {}) if isinstance(meta_all, dict) else {}
                 meta = {
                     'id': '%s-%s' % (prop, RENAME[v]),
-                    'breaks_property': prop,
+                    'breaks_property': (meta_all.get(v, {}) or {}).get('property') or prop,
                     'summary': m.get('summary'),
                     'needs_to_manifest': m.get('needs'),
                     'files': files,
